@@ -27,7 +27,20 @@ def jobs_C06(tier, seed):
             + shards('queue', 'tsan', 10, 5, 3600, scale=0.15))
 
 
+def jobs_smr_hp(tier, seed):
+    # the harness selects HP configurations for C01, DHP for C02, both for C03 (from --prop)
+    if tier == 'quick':
+        return shards('smr_hp', 'dbg', 6, 5, 600, scale=2) + shards('smr_hp', 'asan', 6, 5, 900, scale=0.7)
+    return (shards('smr_hp', 'dbg', 8, 5, 3600) + shards('smr_hp', 'rel', 8, 5, 3600) + shards('smr_hp', 'asan', 8, 5, 3600, scale=0.4))
+
+
+HP_MECH = ['hp.inplace.scan_count', 'hp.classic.scan_count', 'hp.inplace.help_scan_count', 'hp.classic.help_scan_count']
+DHP_MECH = ['dhp.scan_count', 'dhp.help_scan_count', 'dhp.hp_extend_count', 'dhp.retired_block_count']
+
 PROPS = {
+    'C01': {'jobs': jobs_smr_hp, 'mechanisms_required': HP_MECH},
+    'C02': {'jobs': jobs_smr_hp, 'mechanisms_required': DHP_MECH},
+    'C03': {'jobs': jobs_smr_hp, 'mechanisms_required': HP_MECH + DHP_MECH},
     'C06': {
         'jobs': jobs_C06,
         'mechanisms_required': ['ms.onBadTail', 'ms.onEnqueueRace', 'ms.onDequeueRace', 'basket.onTryAddBasket', 'basket.onAddBasket',
